@@ -176,7 +176,15 @@ impl QBNumberCast<i32> for Variant {
         match self {
             Self::VSingle(f) => f.try_cast(),
             Self::VDouble(f) => f.try_cast(),
-            Self::VInteger(f) => Ok(*f),
+            // the result of a built-in function (INSTR of a long string, VARPTR behind
+            // many bytes of variables) can be a VInteger beyond the range of an INTEGER
+            Self::VInteger(f) => {
+                if *f >= MIN_INTEGER && *f <= MAX_INTEGER {
+                    Ok(*f)
+                } else {
+                    Err(LintError::Overflow)
+                }
+            }
             Self::VLong(f) => f.try_cast(),
             _ => Err(LintError::TypeMismatch),
         }
